@@ -25,7 +25,7 @@ type c13Case struct {
 var c13Strings = []string{
 	"1.0", " 1", "1 ", "+1", "-0", "-1", "1e3", "1E3", "1e-3", "2e47483647", "1.", ".5", "0", "00", "01", "2147483647", "2147483648", "-2147483648", "-2147483649", "4294967296", "4294967297", "9223372036854775807", "9223372036854775808", "18446744073709551617", "1.5", "-1.5", "+1.5", "1,5", "0.0", "1.00",
 	"T", "t", "yes", "Y", "TRUE", "True", "true", "false", "F", "no", "N", "2", "1.0.0", "tru",
-	"2020", "2020-13-01", "2020-02-30", "2020-02-29", "2021-02-29", "2020-1-1", "2020-01", "2020-01-01T", "2020-01-01T10", "2020-01-01T10:00", "2020-01-01T10:00:00", "2020-01-01T10:00:00.5", "2020-01-01T10:00:00.500", "2020-01-01T10:00:00Z", "2020-01-01T10:00:00+05:30", "2020-01-01T25:00:00", "2020-01-01 10:00:00", "@2020-01-01", "2020T",
+	"2020", "2020-13-01", "2020-02-30", "2020-02-29", "2021-02-29", "1900-02-29", "2100-02-29", "2000-02-29", "1900-02-28", "1900-02-29T10:00:00", "2000-02-29T10:00:00Z", "2019-04-31", "2020-00-10", "2020-01-00", "2020-1-1", "2020-01", "2020-01-01T", "2020-01-01T10", "2020-01-01T10:00", "2020-01-01T10:00:00", "2020-01-01T10:00:00.5", "2020-01-01T10:00:00.500", "2020-01-01T10:00:00Z", "2020-01-01T10:00:00+05:30", "2020-01-01T25:00:00", "2020-01-01 10:00:00", "@2020-01-01", "2020T",
 	"24:00", "10", "10:00", "10:00:00", "10:00:00.5", "10:00:00.500", "T10:00:00", "@T10:00:00", "10:60", "1:00", "10:00:00Z",
 	"5 'mg'", "5", "5 days", "5 day", "5  mg", "5 mg", "5'mg'", "5 ''", "5.5 'mg'", "-5 'mg'", "+5 'mg'", "5 'mg", "5 m g", "five", "5 weeks", "5 year", "5 '1'", "5 1",
 	"", " ", "abc", "é", "null", "{}",
@@ -380,6 +380,16 @@ func c13Run(ctx *Ctx, c c13Case) {
 	if renderColl(outIs.Coll) != "[Boolean:true]" {
 		ctx.Fail("conv "+where+": result `is System."+c.T+"` is not true", desc+fmt.Sprintf(" ; is → %s", outIs))
 		return
+	}
+	// the result y = x.toT() is itself a value of type T: y.toString().toT() = y
+	if st != c.T && c.T != "String" && c.T != "Quantity" {
+		y := "%x." + to + "()"
+		rt := evalWith(y+".toString()."+to+"() = "+y, nil, vars)
+		if renderColl(rt.Coll) != "[Boolean:true]" {
+			s := evalWith(y+".toString()", nil, vars)
+			ctx.Fail("conv round trip of a conversion result "+where+": y.toString()."+to+"() = y is not true for y = x."+to+"()", desc+fmt.Sprintf(" ; toString → %s ; round trip → %s", s, rt))
+			return
+		}
 	}
 	// for x already of type T: x.toString().toT() = x
 	if st == c.T && c.T != "String" && c.X.isSystem() && !(c.T == "Quantity" && c.X.U == "") {
